@@ -7,6 +7,7 @@
 //!
 //! Exit codes: 0 held, 1 violation, 2 harness error.
 
+mod alloc;
 mod chain;
 mod driver;
 mod entropy;
@@ -22,6 +23,9 @@ mod run;
 mod world;
 
 use run::{ReplayFile, Run, RunResult};
+
+#[global_allocator]
+static GLOBAL: alloc::Counting = alloc::Counting;
 use std::collections::BTreeMap;
 
 pub fn verif_root() -> String {
@@ -69,6 +73,7 @@ pub fn parse_args(a: &[String]) -> Args {
 
 fn init_process(seed: u64, verbose: bool) {
 	ops::install_panic_hook(verbose);
+	alloc::start_watchdog(120);
 	entropy::enable(seed);
 	hooks::install();
 }
